@@ -69,7 +69,7 @@ func TestVerifC09_refcheck(t *testing.T) {
 	}{{wcurve.P256(), elliptic.P256()}, {wcurve.P384(), elliptic.P384()}, {wcurve.P521(), elliptic.P521()}} {
 		c, std := tc.c, tc.std
 		for format := 0; format < 3; format++ {
-			cases := c09ref.SEC1Cases(c, format, c09ref.SEC1Options{FlipBases: r.Pick(1, 4)})
+			cases := c09ref.SEC1Cases(c, format, c09ref.SEC1Options{FlipBases: r.Pick(1, 4), Special: 24})
 			verifmc.ParallelFor(len(cases), func(i int) {
 				cs := cases[i]
 				v := c09ref.SEC1Verdict(c, cs.Data)
@@ -93,7 +93,7 @@ func TestVerifC09_refcheck(t *testing.T) {
 						bad("%s %s: point differs from crypto/elliptic", c.Name, cs.Name)
 					}
 				}
-				want := c09Expect(cs.Class, map[string]string{"valid": "", "alias": "field-range", "field-overflow": "field-range", "offcurve": "not-on-curve"})
+				want := c09Expect(cs.Class, map[string]string{"valid": "", "special": "", "alias": "field-range", "field-overflow": "field-range", "offcurve": "not-on-curve"})
 				if want != "*" && want != v.Reason {
 					bad("%s %s: class %s got verdict %q", c.Name, cs.Name, cs.Class, v.Reason)
 				}
@@ -208,7 +208,7 @@ func TestVerifC09_refcheck(t *testing.T) {
 	}
 	for _, c := range []*ecurve.Curve{ecurve.Edwards25519(), ecurve.Edwards448()} {
 		c := c
-		cases := c09ref.RFC8032Cases(c, c09ref.EdOptions{FlipBases: r.Pick(1, 4)})
+		cases := c09ref.RFC8032Cases(c, c09ref.EdOptions{FlipBases: r.Pick(1, 4), Special: 64})
 		verifmc.ParallelFor(len(cases), func(i int) {
 			cs := cases[i]
 			v := c09ref.RFC8032Verdict(c, cs.Data)
@@ -219,7 +219,7 @@ func TestVerifC09_refcheck(t *testing.T) {
 			if v.Member && (!bytes.Equal(v.Point, c09ref.EdNeutral(c, P)) || !bytes.Equal(c09ref.RFC8032Encode(c, P), cs.Data) || !c.IsOnCurve(P)) {
 				bad("%s %s: point or re-encoding differs", c.Name, cs.Name)
 			}
-			want := c09Expect(cs.Class, map[string]string{"valid": "", "torsion": "", "field-overflow": "field-range", "offcurve": "not-on-curve",
+			want := c09Expect(cs.Class, map[string]string{"valid": "", "special": "", "torsion": "", "field-overflow": "field-range", "offcurve": "not-on-curve",
 				"sign-x0": "sign-bit-with-x=0", "unused-bits": "unused-bits"})
 			if cs.Class == "alias" {
 				if v.Member {
@@ -246,7 +246,7 @@ func TestVerifC09_refcheck(t *testing.T) {
 	// ---------------------------------------------------------------- FourQ
 	{
 		c := ecurve.FourQ()
-		cases := c09ref.FourQCases(c09ref.EdOptions{FlipBases: r.Pick(1, 4)})
+		cases := c09ref.FourQCases(c09ref.EdOptions{FlipBases: r.Pick(1, 4), Special: 64})
 		verifmc.ParallelFor(len(cases), func(i int) {
 			cs := cases[i]
 			P1, v := c09ref.FourQDecode(cs.Data)
@@ -257,7 +257,7 @@ func TestVerifC09_refcheck(t *testing.T) {
 			if v.Member && (!c.Equal(P, P1) || !bytes.Equal(c09ref.FourQEncode(P), cs.Data) || !bytes.Equal(c.MarshalFourQ(P), cs.Data) || !c.IsOnCurve(P)) {
 				bad("FourQ %s: point or re-encoding differs", cs.Name)
 			}
-			want := c09Expect(cs.Class, map[string]string{"valid": "", "torsion": "", "alias": "field-range", "field-overflow": "field-range",
+			want := c09Expect(cs.Class, map[string]string{"valid": "", "special": "", "torsion": "", "alias": "field-range", "field-overflow": "field-range",
 				"offcurve": "not-on-curve", "sign-x0": "sign-bit-with-x=0", "unused-bits": "unused-bits"})
 			if want != "*" && want != v.Reason {
 				bad("FourQ %s: class %s got verdict %q", cs.Name, cs.Class, v.Reason)
@@ -265,6 +265,14 @@ func TestVerifC09_refcheck(t *testing.T) {
 			r.Eval(1)
 			r.Distinct("fourq", cs.Data)
 		})
+		if n := len(c09ref.EdFullTorsion(c)); n != 392 {
+			bad("FourQ: %d small-order points, 392 expected", n)
+		}
+		// the seeded corner: (i, 0) is a point of order 4 and its encoding is 32 zero bytes
+		if P, v := c09ref.FourQDecode(make([]byte, 32)); !v.Member || P.X.A.Sign() != 0 || P.X.B.Cmp(big.NewInt(1)) != 0 && P.X.B.Cmp(new(big.Int).Sub(c.F.P, big.NewInt(1))) != 0 ||
+			!c.IsIdentity(c.ScalarMult(big.NewInt(4), P)) {
+			bad("FourQ: 32 zero bytes do not decode to (+-i, 0) of order 4")
+		}
 		tors := c09ref.EdTorsion(c)
 		r.Set("fourq_torsion_points", len(tors))
 		for _, T := range tors {
@@ -305,14 +313,14 @@ func TestVerifC09_refcheck(t *testing.T) {
 			}
 			r.Distinct("r255bad", i)
 		}
-		cases := c09ref.RistrettoCases(c09ref.EdOptions{FlipBases: r.Pick(1, 4)})
+		cases := c09ref.RistrettoCases(c09ref.EdOptions{FlipBases: r.Pick(1, 4), Special: 16})
 		verifmc.ParallelFor(len(cases), func(i int) {
 			cs := cases[i]
 			v := c09ref.RistrettoVerdict(cs.Data)
 			if v.Member && !bytes.Equal(v.Point, cs.Data) {
 				bad("ristretto255 %s: member does not re-encode to itself", cs.Name)
 			}
-			want := c09Expect(cs.Class, map[string]string{"valid": "", "field-overflow": "field-range", "negative": "negative-s", "unused-bits": "field-range"})
+			want := c09Expect(cs.Class, map[string]string{"valid": "", "special": "", "field-overflow": "field-range", "negative": "negative-s", "unused-bits": "field-range"})
 			if cs.Class == "rfc-invalid" && v.Member {
 				bad("ristretto255 %s accepted", cs.Name)
 			}
